@@ -284,7 +284,7 @@ class Ctx:
                     detail = ""
                     if not built:
                         detail = "; ".join("%s %s" % kv for kv in err_snips.items()) or log[-600:]
-                    self.obligation("%s:%s" % (base, th), built and ok, detail)
+                    self.obligation("%s:%s" % (base, th), built, detail)
             else:
                 self.obligation("build:" + base, built and ok,
                                 "" if built and ok else ("; ".join("%s %s" % kv for kv in err_snips.items()) or log[-600:]))
